@@ -299,7 +299,9 @@ void LVCalc(matrix *X,
         t_old->data[i] = t_->data[i];
     }
     else{
-      if(calcConvergence(t_, t_old) < PLSCONVERGENCE){
+      /* a latent variable built on rounding noise (requested beyond the rank) can alternate between t and -t
+       * for ever: the convergence value then stays at 4/n. Stop after PLSMAXITER passes. */
+      if(calcConvergence(t_, t_old) < PLSCONVERGENCE || loop >= PLSMAXITER){
         break;
       }
       else{
